@@ -120,6 +120,9 @@ static double cpuS()
 	timespec t; clock_gettime(CLOCK_PROCESS_CPUTIME_ID, &t);
 	return t.tv_sec + t.tv_nsec * 1e-9;
 }
+static void removeFiles();
+extern "C" void __sanitizer_set_death_callback(void (*callback)(void));
+
 static void* watchdog(void*)
 {
 	for (;;)
@@ -133,6 +136,7 @@ static void* watchdog(void*)
 		{
 			fprintf(stderr, "WATCHDOG: operation did not terminate (wall %lld ms, cpu %lld ms): %.200s\n", wall, cpu, g_opLine.c_str());
 			fflush(stderr);
+			removeFiles();
 			_exit(98);
 		}
 	}
@@ -294,15 +298,21 @@ static void setupFiles()
 	g_files->setRoot(S(g_tmp + "/root"));
 }
 
-static void cleanup()
+static void removeFiles()
 {
-	if (g_tcp) { g_tcp->stopTcp(); if (!g_tcp->running()) { delete g_tcp; g_tcp = 0; } }
 	if (!g_tmp.empty())
 	{
 		const char* fs[] = { "/secret.txt", "/rootx/s.txt", "/root/index.html", "/root/a.txt", "/root/sub/b.txt", "/root/sub/index.html", "/root/e.bin" };
 		for (size_t i = 0; i < sizeof fs / sizeof fs[0]; i++) unlink((g_tmp + fs[i]).c_str());
 		rmdir((g_tmp + "/root/sub").c_str()); rmdir((g_tmp + "/root").c_str()); rmdir((g_tmp + "/rootx").c_str()); rmdir(g_tmp.c_str());
+		g_tmp.clear();
 	}
+}
+
+static void cleanup()
+{
+	if (g_tcp) { g_tcp->stopTcp(); if (!g_tcp->running()) { delete g_tcp; g_tcp = 0; } }
+	removeFiles();
 	delete g_files; g_files = 0;
 	delete g_rec; g_rec = 0;
 }
@@ -517,6 +527,7 @@ int main()
 {
 	pthread_t wd;
 	pthread_create(&wd, 0, watchdog, 0);
+	__sanitizer_set_death_callback(removeFiles); // a sanitizer abort must not leave the temporary web root behind
 	int rc = run([]() {}, timedStep);
 	cleanup();
 	return rc;
